@@ -78,6 +78,10 @@ def _sites(tier):
         sites.append(("dictfix:equal", ["v = {}"] + ["v[%r] = %s" % (k, base[k]) for k in perm], "{'a': 1, 'b': 0, 'c': [3]}"))
         sites.append(("dictfix:nested", ["v = {'k': {}}"] + ["v['k'][%r] = %s" % (k, obs[k]) for k in perm], "{'k': {'a': 1, 'b': 0, 'c': [3]}}"))
         sites.append(("dictfix:key-added", ["v = {}"] + ["v[%r] = %s" % (k, obs[k]) for k in perm] + ["v['d'] = 4"], "{'a': 1, 'b': 0, 'c': [3]}"))
+        # the mapping of a defaultdict(factory, {...}) snapshot, and the mapping of an OrderedDict
+        sites.append(("dictfix:defaultdict", ["v = defaultdict(int)"] + ["v[%r] = %s" % (k, obs[k]) for k in perm], "defaultdict(int, {'a': 1, 'b': 0, 'c': [3]})"))
+        sites.append(("dictfix:defaultdict-equal", ["v = defaultdict(int)"] + ["v[%r] = %s" % (k, base[k]) for k in perm], "defaultdict(int, {'a': 1, 'b': 0, 'c': [3]})"))
+        sites.append(("dictfix:defaultdict-nested", ["v = [defaultdict(list)]"] + ["v[0][%r] = %s" % (k, obs[k]) for k in perm] + ["v[0]['d'] = 4"], "[defaultdict(list, {'a': 1, 'b': 0, 'c': [3]})]"))
     for perm in itertools.permutations(("a", "b")):
         sites.append(("dictfix:dataclass-kw", ["v = DCK(**{%s})" % ", ".join("%r: %s" % (k, obs[k]) for k in perm)], "DCK(a=1, b=0)"))
     for i, ex in enumerate(['" a "', '[" a ", "b "]', '{"k": " | ", " j": ""}', '"a\\nb "', '" \\n"', "(1.0, -0.0, 1e100, 2**70)", '[(" a",)]',
@@ -87,7 +91,7 @@ def _sites(tier):
 
 
 def _file(sites):
-    out = ["from inline_snapshot import snapshot\nfrom dataclasses import dataclass\nfrom collections import OrderedDict, Counter\n\n\n@dataclass\nclass DCK:\n    a: int\n    b: int\n\n\nclass BadRepr:\n    def __eq__(self, other):\n        return True if isinstance(other, BadRepr) else NotImplemented\n    def __repr__(self):\n        raise RuntimeError('no repr')\n\n\n"
+    out = ["from inline_snapshot import snapshot\nfrom dataclasses import dataclass\nfrom collections import OrderedDict, Counter, defaultdict\n\n\n@dataclass\nclass DCK:\n    a: int\n    b: int\n\n\nclass BadRepr:\n    def __eq__(self, other):\n        return True if isinstance(other, BadRepr) else NotImplemented\n    def __repr__(self):\n        raise RuntimeError('no repr')\n\n\n"
            "def test_000_bad_repr():\n    try:\n        assert BadRepr() == snapshot(1)\n    except Exception:\n        pass\n\n"]
     G = 25  # sites per test function: keeps pytest's per-test overhead out of the cold processes
     for g in range(0, len(sites), G):
